@@ -376,6 +376,33 @@ impl GraphInline {
         }
     }
 
+    /// The same inline with the urls of links to notes (library keys) written relative
+    /// to the directory `parent` of the note being rendered.
+    pub fn relative_to(&self, parent: &str) -> GraphInline {
+        let map = |inlines: &GraphInlines| -> GraphInlines {
+            inlines.iter().map(|inline| inline.relative_to(parent)).collect()
+        };
+        match self {
+            GraphInline::Emph(inlines) => GraphInline::Emph(map(inlines)),
+            GraphInline::Strong(inlines) => GraphInline::Strong(map(inlines)),
+            GraphInline::Underline(inlines) => GraphInline::Underline(map(inlines)),
+            GraphInline::Strikeout(inlines) => GraphInline::Strikeout(map(inlines)),
+            GraphInline::Superscript(inlines) => GraphInline::Superscript(map(inlines)),
+            GraphInline::Subscript(inlines) => GraphInline::Subscript(map(inlines)),
+            GraphInline::SmallCaps(inlines) => GraphInline::SmallCaps(map(inlines)),
+            GraphInline::Image(url, title, inlines) => {
+                GraphInline::Image(url.clone(), title.clone(), map(inlines))
+            }
+            GraphInline::Link(url, title, link_type, inlines) if self.is_ref() => GraphInline::Link(
+                Key::from_file_name(url).to_rel_link_url(parent),
+                title.clone(),
+                *link_type,
+                map(inlines),
+            ),
+            _ => self.clone(),
+        }
+    }
+
     pub fn is_ref(&self) -> bool {
         match self {
             GraphInline::Link(url, _, _, _) => model::is_ref_url(url),
